@@ -670,9 +670,18 @@ func (c *Check) checkThenActAtomic(rule string) {
 		if !ok {
 			detail = "no lookup of the registry map in this function: the existence test is made elsewhere, under a lock that was released again"
 		}
+		var unlocks []ssa.Instruction
+		allInstrs(fn, func(in ssa.Instruction) {
+			if isUnlock(in) {
+				unlocks = append(unlocks, in)
+			}
+		})
 		for _, l := range lookups {
-			if u := pathSearch(fn, l, isUnlock, isUpdate); u != nil {
-				if pathSearch(fn, u, isUpdate, nil) != nil {
+			for _, u := range unlocks {
+				// this Unlock can follow the test before any update, and an
+				// update can still follow it
+				isU := func(y ssa.Instruction) bool { return y == u }
+				if pathSearch(fn, l, isU, isUpdate) != nil && pathSearch(fn, u, isUpdate, nil) != nil {
 					ok = false
 					detail = "Server.mu is released at " + p.InstrPos(u) + " between the existence test and the update"
 				}
